@@ -249,20 +249,60 @@ def run_spec(job):
         captured.append(self)
         return orig(self)
     res = {"error": None, "problems": [], "stats": {}, "nav": None, "files": sorted(files), "log": ""}
-    with F.Work(files) as w:
+    layout = job.get("layout", "plain")
+    with F.Work() as w:
+        # where things live: optionally the output directory, the project directory or the source directory
+        # is reached through a symbolic link (a web root linked into the project, `ford /link/to/proj/proj.md`)
+        base = w.root / "real"
+        base.mkdir()
+        run_root = base
+        if layout == "proj-symlink":
+            os.symlink(base, w.root / "projlink")
+            run_root = w.root / "projlink"
+        for rel, text in files.items():
+            if layout == "src-symlink" and rel.startswith("src/"):
+                rel = "realsrc/" + rel[len("src/"):]
+            f = base / rel
+            f.parent.mkdir(parents=True, exist_ok=True)
+            f.write_text(text)
+        if layout == "src-symlink":
+            (base / "realsrc").mkdir(exist_ok=True)
+            os.symlink(base / "realsrc", base / "src")
+        if layout == "out-symlink":
+            (w.root / "webroot").mkdir()
+            os.symlink(w.root / "webroot", base / "public")
+            opts["output_dir"] = "./public/doc"
         fo.Documentation.writeout = spy
         try:
-            data, out, err = F.full_run_inprocess(w.root, opts, body=body)
+            data, out, err = F.full_run_inprocess(run_root, opts, body=body)
         finally:
             fo.Documentation.writeout = orig
         res["log"] = out[-1500:]
         if err:
             res["error"] = err
             return res
-        doc = w.root / "doc"
-        probs, stats = W.walk(doc, search=opts.get("search") == "true")
+        doc = run_root / ("public/doc" if layout == "out-symlink" else "doc")
+        scratch = {str(w.root), str(w.root.resolve())}
+        probs, stats = W.walk(doc, search=opts.get("search") == "true", scratch_roots=scratch)
+        # relocation: the site copied elsewhere, the original gone, must check out the same
+        if job.get("relocate") and not probs:
+            import shutil
+            moved = w.root / "elsewhere" / "site"
+            shutil.copytree(doc.resolve(), moved)
+            shutil.rmtree(doc.resolve())
+            probs2, stats2 = W.walk(moved, search=opts.get("search") == "true", scratch_roots=scratch)
+            for p2 in probs2:
+                p2["problem"] += "-after-relocation"
+            probs += probs2
+            stats["relocated"] = 1
+            stats["relocated_links"] = stats2["internal"]
+            if stats2["internal"] != stats["internal"]:
+                probs.append(dict(page="-", attr="-", url="-", kind="html", before="", page_class="-", pattern="-",
+                                  problem=f"link-count-changed-after-relocation:{stats['internal']}->{stats2['internal']}"))
+            doc = moved
         for p in probs:
-            p["url"] = p["url"].replace(str(w.root.resolve()), "<ROOT>").replace(str(w.root), "<ROOT>")
+            for sr in sorted(scratch, key=len, reverse=True):
+                p["url"] = p["url"].replace(sr, "<ROOT>")
             p["pattern"] = W.href_pattern(p["url"])
         res["problems"], res["stats"] = probs, stats
         if captured and job.get("nav"):
@@ -272,5 +312,5 @@ def run_spec(job):
         if job.get("keep"):
             import shutil
             shutil.rmtree(job["keep"], ignore_errors=True)
-            shutil.copytree(w.root, job["keep"])
+            shutil.copytree(w.root, job["keep"], symlinks=True)
     return res
